@@ -37,6 +37,45 @@ Qed.
 Lemma r_mem_head k rs : r_mem k (k :: rs) = true.
 Proof. unfold r_mem. cbn. now rewrite rkey_eqb_refl. Qed.
 
+(* ---- the retry counter commutes with every stage of the decoder ----------------------------------- *)
+(* rt r m: m with the retry counter set to r.  Each stage, run on rt r m, returns rt r of what it returns
+   on m (no stage reads m_retry; record updates in different orders are convertible). *)
+Definition rt (r : N) (m : msg) : msg := m <| m_retry := r |>.
+
+Lemma rt_rt r1 r2 m : rt r2 (rt r1 m) = rt r2 m.
+Proof. reflexivity. Qed.
+
+Lemma set_err_rt r m e s : set_err (rt r m) e s = rt r (set_err m e s).
+Proof. unfold set_err, rt. destruct m; cbn. destruct (_ && _); reflexivity. Qed.
+
+Lemma msg_reset_rt r m : msg_reset (rt r m) = rt r (msg_reset m).
+Proof. reflexivity. Qed.
+
+Lemma dec_finish_rt r m : dec_finish (rt r m) = rt r (dec_finish m).
+Proof. unfold dec_finish. change (m_err (rt r m)) with (m_err m). destruct (_ && _); reflexivity. Qed.
+
+Definition oo_rt (r : N) (o : outer_out) : outer_out :=
+  {| oo_msg := rt r (oo_msg o); oo_outer := oo_outer o; oo_iv := oo_iv o; oo_tag := oo_tag o; oo_inner := oo_inner o |}.
+Ltac bm := repeat match goal with |- context [match ?x with _ => _ end] => destruct x end.
+Ltac rt_leaf :=
+  try (f_equal; match goal with |- _ = rt ?q (set_err ?y ?e ?s) => exact (set_err_rt q y e s) end); try reflexivity.
+
+Lemma dec_unpack_outer_rt r m body :
+  dec_unpack_outer (rt r m) body =
+  match dec_unpack_outer m body with inl e => inl (rt r e) | inr o => inr (oo_rt r o) end.
+Proof.
+  unfold dec_unpack_outer. bm.
+  all: rt_leaf.
+Qed.
+
+Lemma dec_unpack_inner_rt r m inner :
+  dec_unpack_inner (rt r m) inner =
+  match dec_unpack_inner m inner with inl e => inl (rt r e) | inr o => inr (rt r o) end.
+Proof.
+  unfold dec_unpack_inner, bad_cred. bm.
+  all: rt_leaf.
+Qed.
+
 Section R.
 Variable hmac : N -> bytes -> bytes -> bytes.
 Variable sha1 : bytes -> bytes.
@@ -74,15 +113,197 @@ Qed.
 Definition retag (r : N) (x : msg + (msg * rkey)) : msg + (msg * rkey) :=
   match x with inl a => inl (a <| m_retry := r |>) | inr (a, k) => inr (a <| m_retry := r |>, k) end.
 
+Lemma dec_decrypt_mac_rt r cf o :
+  dec_decrypt_mac hmac sha1 blk_dec cf (oo_rt r o) =
+  match dec_decrypt_mac hmac sha1 blk_dec cf o with inl e => inl (rt r e) | inr p => inr p end.
+Proof.
+  unfold dec_decrypt_mac. cbn [oo_rt oo_msg oo_outer oo_iv oo_tag oo_inner].
+  change (m_cipher (rt r (oo_msg o))) with (m_cipher (oo_msg o)).
+  change (m_mac (rt r (oo_msg o))) with (m_mac (oo_msg o)).
+  bm; rt_leaf.
+Qed.
+
+Lemma dec_decompress_rt r m inner :
+  dec_decompress zdecomp (rt r m) inner =
+  match dec_decompress zdecomp m inner with inl e => inl (rt r e) | inr p => inr p end.
+Proof.
+  unfold dec_decompress. change (m_zip (rt r m)) with (m_zip m).
+  bm; rt_leaf.
+Qed.
+
+Lemma dec_parse_rt r cf m :
+  dec_parse hmac sha1 blk_dec zdecomp cf (rt r m) =
+  match dec_parse hmac sha1 blk_dec zdecomp cf m with inl e => inl (rt r e) | inr (m', tag) => inr (rt r m', tag) end.
+Proof.
+  unfold dec_parse. change (m_data (rt r m)) with (m_data m).
+  destruct (dec_unarmor (m_data m)) as [body|[e s]]; [|rt_leaf].
+  change (rt r m <| m_data := [] |> <| m_data_len := 0 |>) with (rt r (m <| m_data := [] |> <| m_data_len := 0 |>)).
+  rewrite dec_unpack_outer_rt.
+  destruct (dec_unpack_outer _ body) as [e|o]; [reflexivity|].
+  rewrite dec_decrypt_mac_rt.
+  destruct (CredModel.dec_decrypt_mac _ _ _ cf o) as [e|p]; [reflexivity|].
+  change (oo_msg (oo_rt r o)) with (rt r (oo_msg o)).
+  rewrite dec_decompress_rt.
+  destruct (CredModel.dec_decompress _ _ p) as [e|inner]; [reflexivity|].
+  rewrite dec_unpack_inner_rt.
+  destruct (dec_unpack_inner _ inner) as [e|m2]; reflexivity.
+Qed.
+
+Lemma dec_pre_rt cf mem m pu pg now r :
+  m_retry m <= c_retry_attempts -> r <= c_retry_attempts ->
+  dec_pre cf mem (rt r m) pu pg now = retag r (dec_pre cf mem m pu pg now).
+Proof.
+  intros H1 H2. unfold RetryModel.dec_pre, retag.
+  change (m_data_len (rt r m)) with (m_data_len m).
+  destruct (m_data_len m =? 0).
+  { rewrite set_err_rt, dec_finish_rt. reflexivity. }
+  change (rt r m <| m_time0 := 0 |> <| m_time1 := u32 now |> <| m_client_uid := pu |> <| m_client_gid := pg |>)
+    with (rt r (m <| m_time0 := 0 |> <| m_time1 := u32 now |> <| m_client_uid := pu |> <| m_client_gid := pg |>)).
+  set (m1 := m <| m_time0 := 0 |> <| m_time1 := u32 now |> <| m_client_uid := pu |> <| m_client_gid := pg |>).
+  change (m_retry (rt r m1)) with r. change (m_retry m1) with (m_retry m).
+  replace (c_retry_attempts <? r) with false by (symmetry; apply N.ltb_ge; exact H2).
+  replace (c_retry_attempts <? m_retry m) with false by (symmetry; apply N.ltb_ge; exact H1).
+  rewrite dec_parse_rt.
+  destruct (dec_parse _ _ _ _ cf m1) as [e|[m2 tag]].
+  { rewrite dec_finish_rt. reflexivity. }
+  change (dec_authorized cf mem (rt r m2)) with (dec_authorized cf mem m2).
+  destruct (negb (dec_authorized cf mem m2)).
+  { change (unauth_str (rt r m2)) with (unauth_str m2). rewrite set_err_rt, dec_finish_rt. reflexivity. }
+  change (m_time0 (rt r m2)) with (m_time0 m2). change (m_ttl (rt r m2)) with (m_ttl m2).
+  change (m_time1 (rt r m2)) with (m_time1 m2).
+  destruct (dec_time cf (m_time0 m2) (m_ttl m2) (m_time1 m2)) as [tv ttl'].
+  change (rt r m2 <| m_ttl := ttl' |>) with (rt r (m2 <| m_ttl := ttl' |>)).
+  destruct tv.
+  - reflexivity.
+  - rewrite set_err_rt, dec_finish_rt. reflexivity.
+  - rewrite set_err_rt, dec_finish_rt. reflexivity.
+Qed.
+
 (* the cache-independent part does not depend on the retry counter (as long as it is within bounds) *)
 Lemma dec_pre_retry cf mem m pu pg now r1 r2 :
   r1 <= c_retry_attempts -> r2 <= c_retry_attempts ->
   dec_pre cf mem (m <| m_retry := r2 |>) pu pg now = retag r2 (dec_pre cf mem (m <| m_retry := r1 |>) pu pg now).
 Proof.
-Abort.
+  intros H1 H2. change (m <| m_retry := r2 |>) with (rt r2 (rt r1 m)).
+  apply dec_pre_rt; [exact H1|exact H2].
+Qed.
 
 Definition req (cred : bytes) (retry : N) : msg :=
   msg0 <| m_data := cred |> <| m_data_len := len cred |> <| m_retry := retry |>.
+
+(* attempt i (1..5) sees the retry-0 result, re-tagged *)
+Lemma req_pre cf mem cred pu pg now i : (i <= 5)%nat ->
+  dec_pre cf mem (req cred (N.of_nat (i - 1))) pu pg now
+  = retag (N.of_nat (i - 1)) (dec_pre cf mem (req cred 0) pu pg now).
+Proof.
+  intros H. unfold req. apply dec_pre_retry; [apply N.le_0_l|].
+  change c_retry_attempts with 5. lia.
+Qed.
+
+Lemma attempt_req cf mem cred pu pg now C i f :
+  dec_attempt cf mem cred pu pg now C i f =
+  match f with
+  | Some ReqCut => (C, None)
+  | Some RspLost => let '(_, rs', _) := dec_process cf mem C (req cred (N.of_nat (i - 1))) pu pg now in (rs', None)
+  | Some RspSendFailed =>
+      let '(_, rs', k) := dec_process cf mem C (req cred (N.of_nat (i - 1))) pu pg now in (dec_rollback rs' k, None)
+  | None => let '(r, rs', _) := dec_process cf mem C (req cred (N.of_nat (i - 1))) pu pg now in (rs', Some r)
+  end.
+Proof. reflexivity. Qed.
+
+(* (a) the cache-independent part already answers: every attempt leaves the cache alone *)
+Lemma attempt_final cf mem cred pu pg now C i f r0 :
+  dec_pre cf mem (req cred 0) pu pg now = inl r0 -> (i <= 5)%nat ->
+  dec_attempt cf mem cred pu pg now C i f =
+  (C, match f with None => Some (rt (N.of_nat (i - 1)) r0) | Some _ => None end).
+Proof.
+  intros Hp Hi. rewrite attempt_req, dec_process_factor, req_pre, Hp by exact Hi. cbn [retag].
+  destruct f as [[| |]|]; reflexivity.
+Qed.
+
+(* (b) accepted, record absent *)
+Lemma attempt_fresh cf mem cred pu pg now rs i f m0 k :
+  dec_pre cf mem (req cred 0) pu pg now = inr (m0, k) -> r_mem k rs = false -> (i <= 5)%nat ->
+  dec_attempt cf mem cred pu pg now rs i f =
+  match f with
+  | None => (k :: rs, Some (rt (N.of_nat (i - 1)) m0))
+  | Some RspLost => (k :: rs, None)
+  | Some _ => (rs, None)
+  end.
+Proof.
+  intros Hp Hm Hi. rewrite attempt_req, dec_process_factor, req_pre, Hp by exact Hi. cbn [retag]. rewrite Hm.
+  destruct f as [[| |]|]; try reflexivity.
+  rewrite (rollback_insert _ _ Hm). reflexivity.
+Qed.
+
+(* (b) accepted, record present (left by an earlier attempt of this very request): the retry exception *)
+Lemma attempt_present cf mem cred pu pg now rs i f m0 k :
+  cf_socket_retry cf = true ->
+  dec_pre cf mem (req cred 0) pu pg now = inr (m0, k) -> r_mem k rs = false -> (2 <= i <= 5)%nat ->
+  dec_attempt cf mem cred pu pg now (k :: rs) i f =
+  match f with
+  | None => (k :: rs, Some (rt (N.of_nat (i - 1)) m0))
+  | Some RspSendFailed => (rs, None)
+  | Some _ => (k :: rs, None)
+  end.
+Proof.
+  intros Hc Hp Hm Hi. rewrite attempt_req, dec_process_factor, req_pre, Hp by lia. cbn [retag].
+  rewrite r_mem_head, Hc.
+  change (m_retry (m0 <| m_retry := N.of_nat (i - 1) |>)) with (N.of_nat (i - 1)).
+  replace (0 <? N.of_nat (i - 1)) with true by lia.
+  replace (N.of_nat (i - 1) <=? c_retry_attempts) with true by (change c_retry_attempts with 5; lia).
+  cbn [andb].
+  destruct f as [[| |]|]; try reflexivity.
+  rewrite (rollback_insert _ _ Hm). reflexivity.
+Qed.
+
+Lemma client_step fuel cf mem cred pu pg now C i faults :
+  dec_client (S fuel) cf mem cred pu pg now C i faults =
+  match dec_attempt cf mem cred pu pg now C i (match faults with [] => None | f :: _ => Some f end) with
+  | (rs', Some r) => (rs', Some r)
+  | (rs', None) =>
+      if Nat.leb 5 i then (rs', None)
+      else dec_client fuel cf mem cred pu pg now rs' (S i) (match faults with [] => [] | _ :: r => r end)
+  end.
+Proof. destruct faults; reflexivity. Qed.
+
+Lemma client_final cf mem cred pu pg now rs r0 :
+  dec_pre cf mem (req cred 0) pu pg now = inl r0 ->
+  forall faults fuel i, (1 <= i)%nat -> (i + length faults <= 5)%nat -> (length faults < fuel)%nat ->
+  exists r, dec_client fuel cf mem cred pu pg now rs i faults = (rs, Some r) /\ strip r = strip r0.
+Proof.
+  intros Hp. induction faults as [|f rest IH]; intros fuel i H1 H2 H3.
+  - destruct fuel as [|fuel]; [cbn in H3; lia|]. cbn [length] in *.
+    rewrite client_step, (attempt_final _ _ _ _ _ _ _ _ _ _ Hp) by lia.
+    eexists; split; reflexivity.
+  - destruct fuel as [|fuel]; [cbn in H3; lia|]. cbn [length] in *.
+    rewrite client_step, (attempt_final _ _ _ _ _ _ _ _ _ _ Hp) by lia.
+    replace (Nat.leb 5 i) with false by lia.
+    apply IH; lia.
+Qed.
+
+Lemma client_accept cf mem cred pu pg now rs m0 k :
+  cf_socket_retry cf = true ->
+  dec_pre cf mem (req cred 0) pu pg now = inr (m0, k) -> r_mem k rs = false ->
+  forall faults fuel i C, (1 <= i)%nat -> (i + length faults <= 5)%nat -> (length faults < fuel)%nat ->
+  C = rs \/ (C = k :: rs /\ (2 <= i)%nat) ->
+  exists r, dec_client fuel cf mem cred pu pg now C i faults = (k :: rs, Some r) /\ strip r = strip m0.
+Proof.
+  intros Hc Hp Hm. induction faults as [|f rest IH]; intros fuel i C H1 H2 H3 HC.
+  - destruct fuel as [|fuel]; [cbn in H3; lia|]. cbn [length] in *. rewrite client_step.
+    destruct HC as [->|[-> Hi]].
+    + rewrite (attempt_fresh _ _ _ _ _ _ _ _ _ _ _ Hp Hm) by lia. eexists; split; reflexivity.
+    + rewrite (attempt_present _ _ _ _ _ _ _ _ _ _ _ Hc Hp Hm) by lia. eexists; split; reflexivity.
+  - destruct fuel as [|fuel]; [cbn in H3; lia|]. cbn [length] in *. rewrite client_step.
+    assert (L : Nat.leb 5 i = false) by lia.
+    destruct HC as [->|[-> Hi]].
+    + rewrite (attempt_fresh _ _ _ _ _ _ _ _ _ _ _ Hp Hm) by lia.
+      destruct f; rewrite L; apply IH; try lia; auto.
+      right. split; [reflexivity|lia].
+    + rewrite (attempt_present _ _ _ _ _ _ _ _ _ _ _ Hc Hp Hm) by lia.
+      destruct f; rewrite L; apply IH; try lia; auto.
+      all: right; split; [reflexivity|lia].
+Qed.
 
 (* C13 main theorem.  Up to four faulty attempts of any kind, in any order, then a clean one: munge_decode returns
    exactly what a fault-free first decode returns (up to the retry counter, which DEC_RSP does not carry), and the
@@ -101,14 +322,38 @@ Theorem retry_masks_faults cf mem cred pu pg now rs faults :
                 /\ strip r = strip m0
   end.
 Proof.
-Abort.
+  intros Hc Hl. unfold munge_decode_under_faults. change (N.to_nat c_retry_attempts) with 5%nat.
+  destruct (dec_pre cf mem (req cred 0) pu pg now) as [r0|[m0 k]] eqn:Hp.
+  - apply (client_final _ _ _ _ _ _ _ _ Hp); lia.
+  - intros Hm. apply (client_accept _ _ _ _ _ _ _ _ _ Hc Hp Hm); try lia. left; reflexivity.
+Qed.
 
 (* a reply that could not be sent, and no retry: the credential stays decodable (cache exactly as before) *)
 Theorem unsent_reply_keeps_credential cf mem cred pu pg now rs m0 k :
   dec_pre cf mem (req cred 0) pu pg now = inr (m0, k) -> r_mem k rs = false ->
   fst (dec_attempt cf mem cred pu pg now rs 1 (Some RspSendFailed)) = rs.
 Proof.
-Abort.
+  intros Hp Hm. rewrite (attempt_fresh _ _ _ _ _ _ _ _ _ _ _ Hp Hm) by lia. reflexivity.
+Qed.
+
+Lemma attempt_fault cf mem cred pu pg now C i f :
+  snd (dec_attempt cf mem cred pu pg now C i (Some f)) = None.
+Proof.
+  rewrite attempt_req. destruct f; [reflexivity| |];
+    destruct (dec_process cf mem C _ pu pg now) as [[? ?] ?]; reflexivity.
+Qed.
+
+Lemma client_exhausted cf mem cred pu pg now :
+  forall fuel i C faults, (fuel + i <= 6)%nat -> (fuel <= length faults)%nat ->
+  snd (dec_client fuel cf mem cred pu pg now C i faults) = None.
+Proof.
+  induction fuel as [|fuel IH]; intros i C faults H1 H2; [reflexivity|].
+  destruct faults as [|f rest]; [cbn in H2; lia|]. cbn [length] in H2.
+  rewrite client_step.
+  pose proof (attempt_fault cf mem cred pu pg now C i f) as Hf.
+  destruct (dec_attempt cf mem cred pu pg now C i (Some f)) as [C' [r|]]; [discriminate Hf|].
+  destruct (Nat.leb 5 i); [reflexivity|]. apply IH; lia.
+Qed.
 
 (* five faulty attempts: a socket error (None), never a partial or wrong result; and whatever happened, the
    cache holds at most the one record of this credential *)
@@ -116,7 +361,9 @@ Theorem exhausted_is_socket_error cf mem cred pu pg now rs faults :
   (5 <= length faults)%nat ->
   snd (munge_decode_under_faults hmac sha1 blk_dec zdecomp cf mem cred pu pg now rs faults) = None.
 Proof.
-Abort.
+  intros H. unfold munge_decode_under_faults. change (N.to_nat c_retry_attempts) with 5%nat.
+  apply client_exhausted; [lia|exact H].
+Qed.
 
 (* the retry counter a client can legitimately send is 0..4; munged refuses anything above 5 *)
 Theorem retry_bounds cf mem rs m pu pg now :
@@ -124,6 +371,213 @@ Theorem retry_bounds cf mem rs m pu pg now :
   let '(r, rs', k) := dec_process cf mem rs m pu pg now in
   m_err r = e_socket /\ is_reset r /\ rs' = rs /\ k = None.
 Proof.
-Abort.
+  intros H0 Hd Hr. unfold CredModel.dec_process.
+  destruct (m_data_len m =? 0) eqn:D0; [apply N.eqb_eq in D0; contradiction|].
+  set (m1 := m <| m_time0 := 0 |> <| m_time1 := u32 now |> <| m_client_uid := pu |> <| m_client_gid := pg |>).
+  change (m_retry m1) with (m_retry m).
+  replace (c_retry_attempts <? m_retry m) with true by (symmetry; apply N.ltb_lt; exact Hr).
+  assert (E1 : m_err m1 = e_success) by exact H0.
+  match goal with |- context [dec_finish ?x] =>
+    assert (Hh : hard_code (m_err x) = true) by (apply set_err_hard; [exact E1|reflexivity]) end.
+  rewrite (dec_finish_hard _ Hh).
+  split; [|split; [apply msg_reset_is_reset|split; reflexivity]].
+  change (m_err (msg_reset ?x)) with (m_err x).
+  apply set_err_code; [exact E1|discriminate].
+Qed.
 
 End R.
+
+(* ==================================================================================================== *)
+(* ENCODE counterpart                                                                                   *)
+(* ==================================================================================================== *)
+From Coq Require Import String.   (* string literals; imported late: it shadows List.length *)
+
+Ltac msg_cbn := cbn [set m_retry m_cipher m_mac m_zip m_realm_len m_realm m_ttl m_addr_len m_addr m_time0 m_time1
+   m_client_uid m_client_gid m_cred_uid m_cred_gid m_auth_uid m_auth_gid m_data_len m_data m_err m_errstr].
+Ltac msg_cbn_in H := cbn [set m_retry m_cipher m_mac m_zip m_realm_len m_realm m_ttl m_addr_len m_addr m_time0 m_time1
+   m_client_uid m_client_gid m_cred_uid m_cred_gid m_auth_uid m_auth_gid m_data_len m_data m_err m_errstr] in H.
+Ltac bm_if_in H :=
+  repeat (match type of H with
+  | context [if ?b then _ else _] =>
+      lazymatch b with context [match _ with _ => _ end] => fail | _ => idtac end;
+      lazymatch type of b with bool => destruct b end
+  end; msg_cbn_in H).
+Ltac bm_if :=
+  repeat (match goal with
+  | |- context [if ?b then _ else _] =>
+      lazymatch b with context [match _ with _ => _ end] => fail | _ => idtac end;
+      lazymatch type of b with bool => destruct b end
+  end; msg_cbn).
+
+Lemma enc_validate_rt r cf m :
+  enc_validate cf (rt r m) =
+  match enc_validate cf m with inl a => inl (rt r a) | inr e => inr (rt r e) end.
+Proof.
+  destruct m. unfold enc_validate, rt, set_err. msg_cbn. bm_if. all: reflexivity.
+Qed.
+
+Lemma rt_eta m : rt (m_retry m) m = m.
+Proof. destruct m; reflexivity. Qed.
+
+Lemma enc_validate_retry cf m a : enc_validate cf m = inl a -> m_retry a = m_retry m.
+Proof.
+  intros H. rewrite <- (rt_eta m), enc_validate_rt in H.
+  destruct (enc_validate cf m); [|discriminate]. injection H as <-. reflexivity.
+Qed.
+
+Lemma enc_validate_err cf m a : enc_validate cf m = inl a -> m_err a = m_err m.
+Proof.
+  destruct m. unfold enc_validate. intros H. msg_cbn_in H.
+  bm_if_in H; try discriminate H; injection H as <-; reflexivity.
+Qed.
+
+(* a request enc_validate refuses is refused with one of the three "bad algorithm" codes *)
+Lemma enc_validate_refusal cf m e : enc_validate cf m = inr e -> m_err m = e_success ->
+  m_err e = e_bad_cipher \/ m_err e = e_bad_mac \/ m_err e = e_bad_zip.
+Proof.
+  destruct m. unfold enc_validate. intros H H0. msg_cbn_in H. msg_cbn_in H0. subst.
+  bm_if_in H; try discriminate H; injection H as <-; (rewrite set_err_code; [tauto|reflexivity|discriminate]).
+Qed.
+
+Section E.
+Variable hmac : N -> bytes -> bytes -> bytes.
+Variable sha1 : bytes -> bytes.
+Variable blk_enc : N -> bytes -> bytes -> bytes.
+Variable zcomp : N -> bytes -> option bytes.
+
+Notation enc_core := (enc_core hmac sha1 blk_enc zcomp).
+Notation enc_process := (enc_process hmac sha1 blk_enc zcomp).
+
+Definition eo_rt (r : N) (o : enc_out) : enc_out :=
+  {| eo_msg := rt r (eo_msg o); eo_outer := eo_outer o; eo_tag := eo_tag o; eo_inner_plain := eo_inner_plain o;
+     eo_inner_wire := eo_inner_wire o; eo_cred := eo_cred o |}.
+
+Lemma enc_core_rt r cf m salt ivr :
+  enc_core cf (rt r m) salt ivr =
+  match enc_core cf m salt ivr with inl e => inl (rt r e) | inr o => inr (eo_rt r o) end.
+Proof.
+  unfold CredModel.enc_core.
+  change (m_cipher (rt r m)) with (m_cipher m).
+  change (rt r m <| m_addr_len := c_addr_size |>) with (rt r (m <| m_addr_len := c_addr_size |>)).
+  set (m1 := m <| m_addr_len := c_addr_size |>).
+  change (pack_inner cf (rt r m1) salt) with (pack_inner cf m1 salt).
+  change (m_zip (rt r m1)) with (m_zip m1).
+  destruct (m_zip m1 =? c_zip_none); [reflexivity|].
+  destruct (zip_compress zcomp (m_zip m1) (pack_inner cf m1 salt)) as [z|]; [|rt_leaf].
+  destruct (len (pack_inner cf m1 salt) <=? len z); reflexivity.
+Qed.
+
+Lemma enc_pre_rt r cf m pu pg now :
+  m_retry m <= c_retry_attempts -> r <= c_retry_attempts ->
+  enc_pre cf (rt r m) pu pg now =
+  match enc_pre cf m pu pg now with inl a => inl (rt r a) | inr e => inr (rt r e) end.
+Proof.
+  intros H1 H2. unfold enc_pre. rewrite enc_validate_rt.
+  destruct (enc_validate cf m) as [a|e] eqn:V; [|reflexivity].
+  apply enc_validate_retry in V.
+  change (m_retry (rt r a <| m_client_uid := pu |> <| m_client_gid := pg |>)) with r.
+  change (m_retry (a <| m_client_uid := pu |> <| m_client_gid := pg |>)) with (m_retry a). rewrite V.
+  replace (c_retry_attempts <? r) with false by (symmetry; apply N.ltb_ge; exact H2).
+  replace (c_retry_attempts <? m_retry m) with false by (symmetry; apply N.ltb_ge; exact H1).
+  reflexivity.
+Qed.
+
+Lemma enc_process_rt r cf m pu pg now salt ivr :
+  m_retry m <= c_retry_attempts -> r <= c_retry_attempts ->
+  enc_process cf (rt r m) pu pg now salt ivr = enc_process cf m pu pg now salt ivr.
+Proof.
+  intros H1 H2. unfold CredModel.enc_process. rewrite (enc_pre_rt _ _ _ _ _ _ H1 H2).
+  destruct (enc_pre cf m pu pg now) as [a|e]; [|reflexivity].
+  rewrite enc_core_rt. destruct (enc_core cf a salt ivr) as [e|o]; reflexivity.
+Qed.
+
+(* ENCODE counterpart of dec_pre_retry: the ENC_RSP does not depend on the retry counter of the request, as
+   long as the counter is within bounds.  A retried munge_encode (same salt, IV and clock reading) is answered
+   exactly like the first attempt. *)
+Theorem enc_process_retry cf m pu pg now salt ivr r1 r2 :
+  r1 <= c_retry_attempts -> r2 <= c_retry_attempts ->
+  enc_process cf (m <| m_retry := r2 |>) pu pg now salt ivr = enc_process cf (m <| m_retry := r1 |>) pu pg now salt ivr.
+Proof.
+  intros H1 H2. change (m <| m_retry := r2 |>) with (rt r2 (rt r1 m)).
+  apply enc_process_rt; [exact H1|exact H2].
+Qed.
+
+Definition enc_rsp_exceeded : enc_rsp :=
+  {| er_err := e_socket; er_errstr := str "Exceeded maximum number of encode attempts"%string; er_data := [] |}.
+
+(* above the bound: a request that passes enc_validate is answered by the reset ENC_RSP with EMUNGE_SOCKET *)
+Theorem enc_retry_exceeded cf m pu pg now salt ivr :
+  m_err m = e_success -> c_retry_attempts < m_retry m ->
+  enc_process cf m pu pg now salt ivr =
+  match enc_validate cf m with
+  | inl _ => enc_rsp_exceeded
+  | inr e => {| er_err := m_err e; er_errstr := m_errstr e; er_data := [] |}
+  end.
+Proof.
+  intros H0 Hr. unfold CredModel.enc_process, enc_pre.
+  destruct (enc_validate cf m) as [a|e] eqn:V; [|reflexivity].
+  pose proof (enc_validate_retry _ _ _ V) as R. pose proof (enc_validate_err _ _ _ V) as E.
+  change (m_retry (a <| m_client_uid := pu |> <| m_client_gid := pg |>)) with (m_retry a). rewrite R.
+  replace (c_retry_attempts <? m_retry m) with true by (symmetry; apply N.ltb_lt; exact Hr).
+  unfold set_err. change (m_err (a <| m_client_uid := pu |> <| m_client_gid := pg |>)) with (m_err a).
+  rewrite E, H0. reflexivity.
+Qed.
+
+(* hence: no credential is ever issued for a retry counter above the bound *)
+Corollary enc_retry_exceeded_no_cred cf m pu pg now salt ivr :
+  m_err m = e_success -> c_retry_attempts < m_retry m ->
+  let r := enc_process cf m pu pg now salt ivr in
+  er_data r = [] /\ (er_err r = e_socket \/ er_err r = e_bad_cipher \/ er_err r = e_bad_mac \/ er_err r = e_bad_zip).
+Proof.
+  intros H0 Hr. cbv zeta. rewrite enc_retry_exceeded by assumption.
+  destruct (enc_validate cf m) as [a|e] eqn:V.
+  - split; [reflexivity|left; reflexivity].
+  - split; [reflexivity|right; exact (enc_validate_refusal _ _ _ V H0)].
+Qed.
+End E.
+
+(* ==================================================================================================== *)
+(* Non-vacuity and sharpness, computed inside Coq under toy primitives (constant-size "MAC", identity     *)
+(* "cipher" and "compression"), as in Properties_C01.v                                                    *)
+(* ==================================================================================================== *)
+Definition toy_hmac (a : N) (k d : bytes) : bytes := repeat x2a (N.to_nat (mac_size a)).
+Definition toy_blk (_ : N) (_ b : bytes) : bytes := b.
+Definition toy_enc cf m := enc_process toy_hmac (fun x => x) toy_blk (fun _ x => Some x) cf m 1000 1001 5000
+                                       (repeat x00 8) (repeat x00 16).
+Definition toy_cred : bytes :=
+  er_data (toy_enc cf_std (msg0 <| m_cipher := 0 |> <| m_mac := 5 |> <| m_zip := 0 |> <| m_ttl := 60 |>
+                                <| m_auth_uid := c_uid_any |> <| m_auth_gid := c_gid_any |>
+                                <| m_data := str "hello" |> <| m_data_len := 5 |>)).
+Definition toy_decode cf now faults :=
+  munge_decode_under_faults toy_hmac (fun x => x) toy_blk (fun _ x _ => Some x) cf (fun _ _ => false)
+                            toy_cred 7 8 now [] faults.
+Definition toy_view (x : rstate * option msg) :=
+  match x with (rs, Some r) => Some (List.length rs, m_err r, m_data r, m_cred_uid r) | (_, None) => None end.
+Definition cf_noretry : conf :=
+  {| cf_def_cipher := c_def_cipher; cf_def_mac := c_def_mac; cf_def_zip := c_def_zip;
+     cf_def_ttl := c_def_ttl; cf_max_ttl := c_max_ttl; cf_root_auth := false; cf_clock_skew := true;
+     cf_socket_retry := false; cf_addr := [x7f; x00; x00; x01]; cf_key := [] |}.
+
+(* case (b) of retry_masks_faults is inhabited: four faults of all three kinds, then success, one record *)
+Example retry_example_accept :
+  toy_view (toy_decode cf_std 5010 [RspLost; RspSendFailed; ReqCut; RspLost]) = Some (1%nat, e_success, str "hello", 1000).
+Proof. vm_compute. reflexivity. Qed.
+(* case (a): an expired credential stays "expired" (never "replayed") and leaves no record *)
+Example retry_example_expired :
+  toy_view (toy_decode cf_std 9000 [RspLost; RspSendFailed; ReqCut; RspLost]) = Some (0%nat, e_cred_expired, str "hello", 1000).
+Proof. vm_compute. reflexivity. Qed.
+(* the bound of four faults is sharp *)
+Example retry_example_exhausted :
+  toy_view (toy_decode cf_std 5010 [RspLost; RspSendFailed; ReqCut; RspLost; ReqCut]) = None.
+Proof. vm_compute. reflexivity. Qed.
+(* the hypothesis cf_socket_retry = true is needed: without the option one lost reply burns the credential *)
+Example retry_example_needs_option :
+  toy_view (toy_decode cf_noretry 5010 [RspLost]) = Some (1%nat, e_cred_replayed, str "hello", 1000).
+Proof. vm_compute. reflexivity. Qed.
+(* encode, retry counter 6: EMUNGE_SOCKET if the request validates, but validation comes first *)
+Example enc_retry_example_socket :
+  toy_enc cf_std (msg0 <| m_mac := 5 |> <| m_retry := 6 |>) = enc_rsp_exceeded.
+Proof. vm_compute. reflexivity. Qed.
+Example enc_retry_example_validate_first :
+  er_err (toy_enc cf_std (msg0 <| m_cipher := 99 |> <| m_retry := 6 |>)) = e_bad_cipher.
+Proof. vm_compute. reflexivity. Qed.
